@@ -67,6 +67,12 @@ def run(prop, tier, seed, work, ev):
     c = work.path("sig.cases")
     eng_funcs.gen_call(work, "sig", c, 2 if tier == "quick" else 3, 3, via="lit")
     files.append(("signature decision table", c, "search", None))
+    # JSON texts (numerals at every class boundary, strings, structures): what each build reads, prints and converts -- bit patterns included
+    c = work.path("json.cases")
+    r = tlc("gen/Gen_Json.tla", "Gen.cfg", work, env={"OUT": c}, workers=1, timeout=1800)
+    if r.rc != 0 or not os.path.exists(c):
+        raise ToolError("Gen_Json failed:\n" + r.tail())
+    files.append(("JSON texts: numerals, strings, structures", c, "json", None))
     # hand-shaped families of the evaluation engine: texts that coincide under normalisation (a cache that exists under one feature
     # set only would show here), aliasing, per-element temporaries
     for fam in ("confuse", "alias", "inflate"):
